@@ -108,6 +108,12 @@ class Transformer(BaseEstimator, TransformerMixin, ABC):
             ds = xr.Dataset(data_vars=data_vars, coords=coords)
             name_map = data.name
 
+        # Data defined on a MultiIndex dimension (e.g. scaling parameters over a stacked
+        # feature dimension) carries that MultiIndex as well
+        for dim, index in ds.indexes.items():
+            if isinstance(index, pd.MultiIndex) and dim in ds.dims:
+                multiindexes.setdefault(dim, [n for n in index.names])
+
         # Drop multiindexes and record for later
         ds = ds.reset_index(list(multiindexes.keys()))
         ds.attrs["multiindexes"] = multiindexes
